@@ -61,6 +61,7 @@ type bsim struct {
 	refLatest int64
 
 	keys   []string
+	maxHeight int
 	valCtr int
 	stop   bool
 }
@@ -106,7 +107,7 @@ func sortedKeys(m map[string][]byte) []string {
 
 func (s *bsim) genKeys() {
 	c := s.c
-	n := []int{6, 40, 120, 400, 1300}[c.Weighted([]int{1, 2, 4, 4, 2})]
+	n := []int{6, 40, 120, 400, 1300, 4200}[c.Weighted([]int{1, 2, 4, 4, 2, 2})]
 	shape := c.Intn(3)
 	s.keys = make([]string, n)
 	for i := range s.keys {
@@ -952,6 +953,58 @@ func (s *bsim) fastAudit(why string) {
 	}
 }
 
+// opBulk inserts or removes a long run of keys (ascending, descending or strided) so that
+// leaves and INNER nodes split, merge and redistribute; reads are checked afterwards.
+func (s *bsim) opBulk() {
+	if s.poisoned || len(s.keys) < 64 {
+		return
+	}
+	c := s.c
+	n := len(s.keys)
+	count := n/8 + c.Intn(n/2+1)
+	start := c.Intn(n)
+	stride := []int{1, n - 1, 7, 31, 33, 97}[c.Intn(6)] // n-1 == descending
+	remove := c.Intn(3) != 0
+	if len(s.working) < n/4 {
+		remove = false
+	}
+	s.c.Event("bulk %s count=%d start=%d stride=%d", map[bool]string{true: "remove", false: "insert"}[remove], count, start, stride)
+	for i := 0; i < count && !s.stop; i++ {
+		k := s.keys[(start+i*stride)%n]
+		if remove {
+			old, had := s.working[k]
+			val, removed, err := s.t.Remove([]byte(k))
+			if err != nil || removed != had || (had && !bytes.Equal(val, old)) {
+				s.fail("remove-result", "bulk Remove(%q) = (%q,%v,%v), model (%q,%v)", k, val, removed, err, old, had)
+				return
+			}
+			if had {
+				delete(s.working, k)
+				o := lop{del: true, k: k}
+				s.session = append(s.session, o)
+				s.applyRef(o)
+			}
+		} else {
+			s.valCtr++
+			v := []byte(fmt.Sprintf("b%d", s.valCtr))
+			_, had := s.working[k]
+			upd, err := s.t.Set([]byte(k), v)
+			if err != nil || upd != had {
+				s.fail("set-updated-flag", "bulk Set(%q) updated=%v err=%v, model had=%v", k, upd, err, had)
+				return
+			}
+			s.working[k] = v
+			o := lop{k: k, v: v}
+			s.session = append(s.session, o)
+			s.applyRef(o)
+		}
+	}
+	s.r.Probe("bulk_ops")
+	if !s.stop {
+		s.checkReads("after bulk op", s.t, s.working, 8)
+	}
+}
+
 // Run is one simulated history.
 func runBptree(c *kernel.Choices, p kernel.Params) *kernel.Result {
 	s := &bsim{c: c, r: kernel.NewResult(), prop: p.Property}
@@ -990,6 +1043,10 @@ func runBptree(c *kernel.Choices, p kernel.Params) *kernel.Result {
 		c.Intn(3),       // export/import
 		c.Intn(6),       // proof
 		c.Intn(3),       // fast audit
+		0,               // bulk insert/remove (deep profiles)
+	}
+	if len(s.keys) >= 400 {
+		w[14] = 2 + c.Intn(6)
 	}
 	switch p.Property {
 	case "C25":
@@ -1040,8 +1097,13 @@ func runBptree(c *kernel.Choices, p kernel.Params) *kernel.Result {
 			s.opProof()
 		case 13:
 			s.fastAudit("mid-run")
+		case 14:
+			s.opBulk()
 		}
 		s.r.Steps++
+		if h := int(s.t.Height()); h > s.maxHeight {
+			s.maxHeight = h
+		}
 	}
 	if !s.stop {
 		s.fastAudit("end-of-run")
@@ -1057,6 +1119,12 @@ func runBptree(c *kernel.Choices, p kernel.Params) *kernel.Result {
 	}
 	s.r.Probes["versions_saved"] += int(s.latest)
 	s.r.Probes["max_tree_size"] += len(s.working)
+	if s.maxHeight >= 1 {
+		s.r.Probe("reached_height>=1")
+	}
+	if s.maxHeight >= 2 {
+		s.r.Probe("reached_height>=2")
+	}
 	if s.t.Height() >= 2 {
 		s.r.Probe("height>=2")
 	}
